@@ -362,6 +362,32 @@ func (x *run) canonGraph() (string, *Failure) {
 			return "", fail("C06", "wiring-by-registrations", f.Sig, "%s", f.Msg)
 		}
 	}
+	// a singleton that depends (by name) on a singleton function without results starts after that function has run
+	for _, inv := range x.W.AllInvs() {
+		r := x.M.Regs[inv.Reg]
+		if r == nil || r.Life != kit.Singleton {
+			continue
+		}
+		for _, d := range r.Deps {
+			if d.T != kit.TVoid || d.Key == "" {
+				continue
+			}
+			for _, tg := range x.M.DepTargets(d) {
+				if x.M.Regs[tg.Reg].Life != kit.Singleton {
+					continue
+				}
+				ran := false
+				for _, vi := range x.W.AllInvs() {
+					if vi.Reg == tg.Reg && vi.Outcome == 1 && vi.EndSeq != 0 && vi.EndSeq < inv.StartSeq {
+						ran = true
+					}
+				}
+				if !ran {
+					return "", fail("C06", "deps-first", "function-by-name", "singleton r%d started (seq %d) before the singleton function r%d it depends on by name had run", inv.Reg, inv.StartSeq, tg.Reg)
+				}
+			}
+		}
+	}
 	// every singleton's singleton arguments were fully constructed before it started
 	for _, inv := range x.W.AllInvs() {
 		if x.M.Regs[inv.Reg].Life != kit.Singleton {
@@ -427,6 +453,9 @@ func TestC06Container(t *testing.T) {
 			planted = kit.PlantDeps(rt, cfg, rapid.IntRange(1, 2).Draw(rt, "nplant"), true)
 		case 2:
 			dropped = kit.DropRegs(rt, cfg, 20)
+		}
+		if mode == 0 && rapid.IntRange(0, 3).Draw(rt, "voidChain") == 0 && kit.PlantVoidChain(rt, cfg) {
+			planted = append(planted, "singleton-function-in-a-dependency-chain")
 		}
 		m, err := kit.NewModel(cfg)
 		if err != nil {
